@@ -430,3 +430,80 @@ impl<'a, F: IVP> SolOut for DefaultSolOut<'a, F> {
         ControlFlag::Continue
     }
 }
+
+/// Verification hook (add-only, compiled only with `--cfg ivp_verif`): exposes the internal
+/// output handler so that an external conformance harness can drive it with a step grid of
+/// its own choosing and observe its bookkeeping after every callback.
+#[cfg(ivp_verif)]
+pub mod verif {
+    use super::DefaultSolOut;
+    use crate::{
+        Float,
+        dense::StepInterpolant,
+        ivp::IVP,
+        solout::{ControlFlag, SolOut},
+    };
+
+    /// Public wrapper around the crate-private `DefaultSolOut`.
+    pub struct Handler<'a, F: IVP>(DefaultSolOut<'a, F>);
+
+    /// Snapshot of the handler's bookkeeping.
+    #[derive(Debug, Clone)]
+    pub struct Probe {
+        pub next_idx: usize,
+        pub event_hits: Vec<usize>,
+        pub first_output_done: bool,
+        pub n_segs: usize,
+        pub n_out: usize,
+        pub prev_event: Vec<Float>,
+    }
+
+    impl<'a, F: IVP> Handler<'a, F> {
+        pub fn new(
+            ode: &'a F,
+            t_eval: Option<Vec<Float>>,
+            collect_dense: bool,
+            first_step: Option<Float>,
+            x0: Float,
+            n_states: usize,
+        ) -> Self {
+            Handler(DefaultSolOut::new(ode, t_eval, collect_dense, first_step, x0, n_states))
+        }
+
+        pub fn probe(&self) -> Probe {
+            Probe {
+                next_idx: self.0.next_idx,
+                event_hits: self.0.event_hits.clone(),
+                first_output_done: self.0.first_output_done,
+                n_segs: self.0.dense_segs.len(),
+                n_out: self.0.t.len(),
+                prev_event: self.0.prev_event.clone(),
+            }
+        }
+
+        /// Collected `(t, y, t_events, y_events, dense segments (cont, xold, h))`.
+        pub fn into_payload(
+            self,
+        ) -> (
+            Vec<Float>,
+            Vec<Vec<Float>>,
+            Vec<Vec<Float>>,
+            Vec<Vec<Vec<Float>>>,
+            Vec<(Vec<Float>, Float, Float)>,
+        ) {
+            self.0.into_payload()
+        }
+    }
+
+    impl<'a, F: IVP> SolOut for Handler<'a, F> {
+        fn solout(
+            &mut self,
+            xold: Float,
+            x: &mut Float,
+            y: &mut [Float],
+            interpolant: Option<&StepInterpolant<'_>>,
+        ) -> ControlFlag {
+            self.0.solout(xold, x, y, interpolant)
+        }
+    }
+}
